@@ -52,6 +52,7 @@ type verifC01World struct {
 	extraR  int64
 	extraB  int64
 	unknown *unknownTopicProduces
+	recycle bool
 }
 
 //verif:replace (*sink).maybeDrain
@@ -67,6 +68,10 @@ func (w *verifC01World) newRec(topic string) promisedRec {
 		t.err = err
 		t.offset = rr.Offset
 		t.pid = rr.ProducerID
+		if w.recycle {
+			// promises may recycle the record's buffers; accounting must not depend on it
+			rr.Value, rr.Key = nil, nil
+		}
 	}, r}
 }
 
@@ -82,6 +87,7 @@ func verifC01Build() *verifC01World {
 	p.topics = newTopicsPartitions()
 	p.unknownTopics = make(map[string]*unknownTopicProduces)
 	w := &verifC01World{cl: cl, byRec: map[*Record]*verifC01Track{}}
+	w.recycle = verifChoose(2) == 1
 	hk := &verifC01Hook{w}
 	p.hooks = &struct {
 		buffered    []HookProduceRecordBuffered
